@@ -224,6 +224,34 @@ PROPS["C12"] = {
     "assumptions": H2_ASSUME,
 }
 
+H3C_ASSUME = H3_ASSUME + [
+    "cluster runs: 2-3 real servers; Raft is the ordered-commit stub (elections, commit order, snapshots simulated; not hashicorp/raft); NATS is the simulated bus with per-connection FIFO, loss, delay and one-way cuts",
+]
+
+PROPS["C04"] = {
+    "engine": "h3",
+    "level": "exploration",
+    "budget": {"quick": 60, "thorough": 900},
+    "runs_per_proc": 25,
+    "technique": "deterministic simulation of a 2-3 server cluster (real partition leader/follower/replicator/commit loops) with a publisher client sending enveloped messages of mixed ack policies, sizes and batch boundaries straight to the stream subject; faults: server crash/restart, one- and two-way network cuts, message loss/delay, stalls, time passing across the lag/leader-timeout timers; every acknowledgement is examined by a bus tap at the instant it leaves the leader",
+    "level_text": "seeded exploration of interleavings of publishes, follower fetches, ISR shrink/expand and commit checks under faults; oracle at the ack instant: ALL => every member of the leader's in-sync set holds exactly that message at that offset and the set has the minimum size; LEADER => the leader holds it; NONE => never positively acked; offset/correlation id/policy belong to the message; oversized or wrong-expected-offset messages are nacked and stored by nobody",
+    "level_note": "in-sync members that are down at the ack instant are not inspected; negative acks for NONE-policy messages are not judged (the statement leaves it open)",
+    "rule": "programs of 6-29 (thorough -75) operations on 2-3 servers, RF 1-3, min ISR 1-RF, batch sizes 1-1024; distinct = distinct event-log hash; non-trivial = >=3 messages published and >=1 ack observed",
+    "assumptions": H3C_ASSUME,
+}
+
+PROPS["C02"] = {
+    "engine": "h3",
+    "level": "exploration",
+    "budget": {"quick": 60, "thorough": 900},
+    "runs_per_proc": 25,
+    "technique": "deterministic simulation of a 2-3 server cluster (real leader/follower/replicator/commit loops, real epoch-based log reconciliation, real controller failover logic over the Raft stub) with a publisher client; faults: leader and follower crash/restart (repeated), one- and two-way network cuts, message loss/delay, stalls, time passing across the lag/leader-timeout timers; replica logs are compared offset by offset at every operation boundary and after a convergence period",
+    "level_text": "seeded exploration of interleavings of publish, follower fetch, commit, leader crash, election from the in-sync set, follower restart with epoch-based truncation and ISR shrink/expand, including repeated failovers; oracle: pairwise equality of replicas at every offset both hold at or below both high watermarks; every ALL-acknowledged message is on every later leader at its offset; after convergence on every in-sync replica",
+    "level_note": "acks from a server that no longer leads at the ack instant are not counted as commits; Raft is the ordered-commit stub, so metadata-level split brain is not explored",
+    "rule": "programs of 6-29 (thorough -75) operations on 2-3 servers; distinct = distinct event-log hash; non-trivial = >=3 messages published and >=1 committed",
+    "assumptions": H3C_ASSUME,
+}
+
 NOT_APPLICABLE = [
     {"property_id": pid, "reason": "check not built yet in this round (engine under construction); see DESIGN.md section 9 build order"}
     for pid in ["C%02d" % i for i in range(1, 20)] if pid not in PROPS
